@@ -242,6 +242,9 @@ def build(ast, refs, attr_item_labels=()):
         return f(*args, **kw)
     if t == "item":
         return build(ast[1], refs, attr_item_labels)[build(ast[2], refs, attr_item_labels)]
+    if t == "litexpr":
+        from xdeps.refs import LiteralExpr
+        return LiteralExpr(dec(ast[1][1]))
     if t == "eq":
         return build(ast[1], refs, attr_item_labels)._eq(build(ast[2], refs, attr_item_labels))
     if t == "neq":
@@ -270,7 +273,7 @@ def set_loc(key, roots, value):
 
 def has_ref(ast):
     t = ast[0]
-    if t == "loc":
+    if t in ("loc", "litexpr"):
         return True
     if t == "lit":
         return False
@@ -306,6 +309,8 @@ def _mirror(ast, roots, limit):
         return get_loc(loc_key(ast), roots)
     if t == "lit":
         return dec(ast[1])
+    if t == "litexpr":
+        return dec(ast[1][1])
     if t == "bin":
         a = _mirror(ast[2], roots, limit)
         b = _mirror(ast[3], roots, limit)
@@ -336,7 +341,7 @@ def _mirror(ast, roots, limit):
 # ----------------------------------------------------------------- structure
 def subterms(ast):
     t = ast[0]
-    if t in ("loc", "lit"):
+    if t in ("loc", "lit", "litexpr"):
         return []
     if t in ("bin", "eq", "neq", "item"):
         return [ast[-2], ast[-1]]
@@ -395,7 +400,7 @@ def size(ast):
 
 
 def n_ops(ast):
-    return (0 if ast[0] in ("loc", "lit") else 1) + sum(n_ops(s) for s in subterms(ast))
+    return (0 if ast[0] in ("loc", "lit", "litexpr") else 1) + sum(n_ops(s) for s in subterms(ast))
 
 
 def depth(ast):
@@ -494,6 +499,8 @@ def render(ast):
         return loc_str(loc_key(ast))
     if t == "lit":
         return repr(dec(ast[1])) if ast[1][0] not in ("arr", "np") else show(dec(ast[1]))
+    if t == "litexpr":
+        return f"LiteralExpr({render(ast[1])})"
     if t == "bin":
         return f"({render(ast[2])} {ast[1]} {render(ast[3])})"
     if t == "un":
